@@ -17,10 +17,10 @@ From Coq Require Import List Arith Bool.
 Import ListNotations.
 
 Inductive kind := KSock | KEpoll | KEfd.
-Inductive sysc := SEpoll | SEfd | SAdd.
+Inductive sysc := SEpoll | SEfd | SAdd | SSock.
 
 Definition sysc_eqb (a b : sysc) : bool :=
-  match a, b with SEpoll, SEpoll | SEfd, SEfd | SAdd, SAdd => true | _, _ => false end.
+  match a, b with SEpoll, SEpoll | SEfd, SEfd | SAdd, SAdd | SSock, SSock => true | _, _ => false end.
 
 (* the index-th call (from 0) of the given kind fails; None: nothing fails *)
 Record fault := mkFault { f_call : sysc; f_index : nat }.
@@ -36,17 +36,17 @@ Record st := mkSt {
   nxt : nat;                       (* next creation index *)
   opn : list (nat * kind);         (* everything ever created, newest first *)
   cls : list nat;                  (* every close(2) issued, newest first *)
-  n_epoll : nat; n_efd : nat; n_add : nat;   (* calls made so far, per injectable kind *)
+  n_epoll : nat; n_efd : nat; n_add : nat; n_sock : nat;   (* calls made so far, per injectable kind *)
   gos : nat;                       (* goroutines started *)
 }.
 
-Definition st0 : st := mkSt 0 [] [] 0 0 0 0.
+Definition st0 : st := mkSt 0 [] [] 0 0 0 0 0.
 
 Definition create (k : kind) (s : st) : nat * st :=
-  (nxt s, mkSt (S (nxt s)) ((nxt s, k) :: opn s) (cls s) (n_epoll s) (n_efd s) (n_add s) (gos s)).
+  (nxt s, mkSt (S (nxt s)) ((nxt s, k) :: opn s) (cls s) (n_epoll s) (n_efd s) (n_add s) (n_sock s) (gos s)).
 
 Definition close (id : nat) (s : st) : st :=
-  mkSt (nxt s) (opn s) (id :: cls s) (n_epoll s) (n_efd s) (n_add s) (gos s).
+  mkSt (nxt s) (opn s) (id :: cls s) (n_epoll s) (n_efd s) (n_add s) (n_sock s) (gos s).
 
 (* listener.close: sync.Once -- a listener that has been closed is not closed again *)
 Definition close_once (id : nat) (s : st) : st :=
@@ -55,7 +55,7 @@ Definition close_once (id : nat) (s : st) : st :=
 Definition close_all_once (ids : list nat) (s : st) : st := fold_left (fun s id => close_once id s) ids s.
 
 Definition go (n : nat) (s : st) : st :=
-  mkSt (nxt s) (opn s) (cls s) (n_epoll s) (n_efd s) (n_add s) (gos s + n).
+  mkSt (nxt s) (opn s) (cls s) (n_epoll s) (n_efd s) (n_add s) (n_sock s) (gos s + n).
 
 Definition fails (f : option fault) (c : sysc) (n : nat) : bool :=
   match f with Some ft => sysc_eqb (f_call ft) c && Nat.eqb (f_index ft) n | None => false end.
@@ -63,9 +63,10 @@ Definition fails (f : option fault) (c : sysc) (n : nat) : bool :=
 (* one injectable call: returns whether it failed, and the state with the call counted *)
 Definition call (f : option fault) (c : sysc) (s : st) : bool * st :=
   match c with
-  | SEpoll => (fails f c (n_epoll s), mkSt (nxt s) (opn s) (cls s) (S (n_epoll s)) (n_efd s) (n_add s) (gos s))
-  | SEfd => (fails f c (n_efd s), mkSt (nxt s) (opn s) (cls s) (n_epoll s) (S (n_efd s)) (n_add s) (gos s))
-  | SAdd => (fails f c (n_add s), mkSt (nxt s) (opn s) (cls s) (n_epoll s) (n_efd s) (S (n_add s)) (gos s))
+  | SEpoll => (fails f c (n_epoll s), mkSt (nxt s) (opn s) (cls s) (S (n_epoll s)) (n_efd s) (n_add s) (n_sock s) (gos s))
+  | SEfd => (fails f c (n_efd s), mkSt (nxt s) (opn s) (cls s) (n_epoll s) (S (n_efd s)) (n_add s) (n_sock s) (gos s))
+  | SAdd => (fails f c (n_add s), mkSt (nxt s) (opn s) (cls s) (n_epoll s) (n_efd s) (S (n_add s)) (n_sock s) (gos s))
+  | SSock => (fails f c (n_sock s), mkSt (nxt s) (opn s) (cls s) (n_epoll s) (n_efd s) (n_add s) (S (n_sock s)) (gos s))
   end.
 
 (* netpoll.OpenPoller: epoll_create1, eventfd, epoll_ctl ADD of the eventfd; what it created is closed
@@ -89,10 +90,16 @@ Fixpoint add_reads (f : option fault) (lns : list nat) (s : st) : st * bool :=
   | _ :: r => let '(bad, s1) := call f SAdd s in if bad then (s1, false) else add_reads f r s1
   end.
 
-Fixpoint create_socks (n : nat) (s : st) : list nat * st :=
+(* initListener for n addresses, one after the other: socket(2) may fail; the listeners created before the
+   failing one are returned together with the flag (what the caller does with them is the caller's part) *)
+Fixpoint create_socks (f : option fault) (n : nat) (s : st) : list nat * st * bool :=
   match n with
-  | O => ([], s)
-  | S m => let '(id, s1) := create KSock s in let '(ids, s2) := create_socks m s1 in (id :: ids, s2)
+  | O => ([], s, true)
+  | S m =>
+      let '(bad, s0) := call f SSock s in
+      if bad then ([], s0, false) else
+      let '(id, s1) := create KSock s0 in
+      let '(ids, s2, ok) := create_socks f m s1 in (id :: ids, s2, ok)
   end.
 
 (* a registered event loop: its listeners and its poller *)
@@ -105,7 +112,8 @@ Fixpoint run_event_loops (f : option fault) (L : list nat) (todo : nat) (first :
   match todo with
   | O => (s, regs, true)
   | S m =>
-      let '(lns, s0) := if first then (L, s) else create_socks (List.length L) s in
+      let '(lns, s0, oks) := if first then (L, s, true) else create_socks f (List.length L) s in
+      if negb oks then (close_all_once lns s0, regs, false) else   (* closeListeners(lns); return err *)
       let '(s1, op) := open_poller f s0 in
       match op with
       | None => ((if first then s1 else close_all_once lns s1), regs, false)
@@ -159,7 +167,10 @@ Inductive outcome := Failed | Started.
    listeners comes last in both cases. *)
 Definition run (c : config) : st * outcome :=
   let f := c_fault c in
-  let '(L, s0) := create_socks (c_nlis c) st0 in
+  let '(L, s0, okl) := create_socks f (c_nlis c) st0 in
+  (* createListeners: an address whose listener cannot be created ends Run / Rotate with the error, after the
+     listeners created for the earlier addresses have been closed again *)
+  if negb okl then (close_all_once L s0, Failed) else
   if c_reuseport c then
     let '(s1, regs, ok) := run_event_loops f L (c_nloops c) true [] s0 in
     if ok then
@@ -177,7 +188,8 @@ Definition run (c : config) : st * outcome :=
    say that no goroutine has been started by then *)
 Definition after_start (c : config) : st * bool :=
   let f := c_fault c in
-  let '(L, s0) := create_socks (c_nlis c) st0 in
+  let '(L, s0, okl) := create_socks f (c_nlis c) st0 in
+  if negb okl then (s0, false) else
   if c_reuseport c then
     let '(s1, _, ok) := run_event_loops f L (c_nloops c) true [] s0 in (s1, ok)
   else
